@@ -309,7 +309,7 @@ func vf37Bytes(rng *rand.Rand, n int) []byte {
 func TestVerif_C37(t *testing.T) {
 	r := verifkit.Start(t, "C37", "exploration")
 	defer r.Finish()
-	nWorlds := r.Pick(40, 400)
+	nWorlds := r.Pick(80, 600)
 	perWorld := r.Pick(100, 250)
 	r.SetRule(fmt.Sprintf("%d seeded nodes (alphabet member; EC allowed on every second one) x %d container requests each: kind in %v; witness in {owner RFC6979 signature, stranger signature, owner key with foreign signature, owner signature of other data, N3 witness accepted/refused by the chain, session v1 token, session v2 token (incl. delegation)} with mutated verbs, container binding, lifetimes, issuers, token signatures; creation content with valid/invalid REP, EC, REP+EC policies and permitted/forbidden system attributes; eACL tables targeting others/user/system roles on extendable/final containers; distinct = (kind, witness mode, oracle verdict components, approved?) signatures", nWorlds, perWorld, vf37Kinds))
 	r.Assume("a contract-style (N3) witness counts as the owner's signature iff the chain's script run returns true")
